@@ -179,7 +179,18 @@ CLAIMED["C12"] = dict(
          "values and metadata beyond one column are C13's.",
     technique="Coq proof over an executable model of ts_group.py reusing the C01/C02/C03/C05/C06/C08 theorems + history correspondence with the extracted model",
     design="5 C12")
-REASON_TODO = "check not built yet in this round (planned: DESIGN.md section 5)"
+CLAIMED["C20"] = dict(
+    text="Proof for EVERY value of the random draws (the shift, the jitter vector, the resampled instants, the permutation of the inter-event intervals are explicit arguments of "
+         "the model) and every single-interval support [s,e], not necessarily starting at 0: shift_timestamps and resample_timestamps return as many timestamps as given, all inside "
+         "the kept support; shuffle_ts_intervals keeps the first timestamp and returns exactly the permuted inter-event intervals; jitter_timestamps keeps the count and moves the "
+         "k-th sorted timestamp by at most max_jitter (rearrangement lemma), or keeps the support when keep_tsupport=True; the TsGroup forms are member-wise the Ts generators with keys "
+         "kept. For groups whose support is recomputed the remaining cases are proved false and are the known findings; the pre-repair shift is refuted.",
+    note="Trusted: Coq kernel; Model/Randomize.v (draws as arguments, constructors included) tied by running the public API with np.random.uniform/permutation replaced inside the "
+         "harness process and comparing with the extracted model on a complete small dyadic space plus ns-resolution and real-generator runs; NumPy's draw ranges, np.sort, float % on "
+         "the lattice are assumed.",
+    technique="Coq proof over an executable model with universally quantified draws + extracted-model/implementation correspondence with recorded draws",
+    design="5 C20")
+REASON_TODO = "C15: the translator + safety-calculus development (DESIGN.md 5 C15 / 10.6) is still being completed; not claimed until its check runs clean"
 m = {
     "version": 1,
     "setup_cmd": "./setup.sh",
